@@ -268,13 +268,13 @@ Qed.
 
 (** *** the attribute set, for every document whose entity literals are simple: refused by both, or equal *)
 Lemma rows_refine_good d el written :
-  simple_table (entities_of d) -> no_ns_defs d el -> Known36 d el written = false ->
+  simple_table (entities_of d) -> Known36 d el written = false ->
   (forall nl, In nl written -> forall n, In n (refs_of (snd nl)) -> good (entities_of d) n) ->
   (forall x fx lit, In x (defs_for d el) -> ad_default x = Default fx lit ->
      forall n, In n (refs_of lit) -> good (entities_of d) n) ->
   map (m_observe d el) (m_attributes_nodes d el written) = map of_item (spec_attrs_items d el written).
 Proof.
-  intros Hs Hns Hk Hw Hdg.
+  intros Hs Hk Hw Hdg.
   unfold m_attributes_nodes, spec_attrs_items. rewrite att_defs_merged. fold (defs_for d el).
   set (defs := defs_for d el) in *.
   set (base := map (fun nl => {| mn_name := fst nl; mn_vals := snd nl; mn_from_dtd := false |})
@@ -288,8 +288,10 @@ Proof.
     unfold declaration_type, def_of. f_equal.
     apply value_refines_good; [exact Hs|exact (Hw (n, l) Hin)].
   - apply map_flat_map_ext. intros x Hx.
-    unfold mrow, base. rewrite (written_base written (ad_name x) (Hns x Hx)). fold (is_written written (ad_name x)).
-    rewrite (Hns x Hx), orb_false_r.
+    unfold mrow. rewrite namespace_is_nsdecl. destruct (is_nsdecl (ad_name x)) eqn:Hnsx.
+    { rewrite orb_true_r. destruct (ad_default x); reflexivity. }
+    unfold base. rewrite (written_base written (ad_name x) Hnsx). fold (is_written written (ad_name x)).
+    rewrite orb_false_r.
     destruct (is_written written (ad_name x)) eqn:Ew; [destruct (ad_default x); reflexivity|].
     assert (Hty : declaration_type (declaration_att_defs [] d el) (ad_name x) = Some (ad_type x)).
     { rewrite att_defs_merged. fold (defs_for d el). fold defs. unfold declaration_type.
@@ -308,10 +310,10 @@ Proof.
 Qed.
 
 Theorem attribute_set_refines_all_proof : forall d el written,
-  simple_table (entities_of d) -> predefined_free (entities_of d) -> no_ns_defs d el -> Known36 d el written = false ->
+  simple_table (entities_of d) -> predefined_free (entities_of d) -> Known36 d el written = false ->
   model_attrs d el written = map_ares (map of_item) (spec_attrs d el written).
 Proof.
-  intros d el written Hs Hp Hns Hk. unfold model_attrs, spec_attrs.
+  intros d el written Hs Hp Hk. unfold model_attrs, spec_attrs.
   rewrite (doctype_checks_agree d []) by exact Hs.
   replace (forallb (fun nl => m_refs_found (entities_of d) (snd nl)) written)
      with (forallb (fun nl => lit_expands (entities_of d) (snd nl)) written)
